@@ -120,3 +120,22 @@ Theorem C18_rules_do_not_override_file_refuted :
   /\ forget (run_src all_valid (tbl_matches w8_mt) placement_actual (swith_flag 1 placement_source_actual) w8_src (absf "notes.tmp"))
     = spec_src all_valid (tbl_matches w8_mt) w8_src (absf "notes.tmp").
 Proof. repeat split; vm_compute; try discriminate; reflexivity. Qed.
+
+(* the root-level file `src\x.py` (a backslash is an ordinary character of a POSIX file name) is judged by the rule of
+   the directory `src`, and `^lib/` matches the root-level file `lib\a.py`: the patterns and keys are tested against
+   the path with every backslash turned into `/` *)
+Definition w9_cfg : config := {|
+  c_dirs := Some [("src", {| r_allow := None; r_deny := Some [DStr "x"] |})];
+  c_gdeny := Some [DStr "^lib/"]; c_gpat := None |}.
+Definition w9_mt := [("x", "src\x.py", true); ("x", "src/x.py", true); ("^lib/", "src\x.py", false); ("^lib/", "src/x.py", false);
+                     ("^lib/", "lib\a.py", false); ("^lib/", "lib/a.py", true); ("x", "lib\a.py", false); ("x", "lib/a.py", false)].
+Theorem C18_backslash_separator_refuted :
+  forget (run all_valid (tbl_matches w9_mt) placement_actual w9_cfg (absf "src\x.py"))
+    <> spec all_valid (tbl_matches w9_mt) w9_cfg (absf "src\x.py")
+  /\ forget (run all_valid (tbl_matches w9_mt) placement_actual w9_cfg (absf "lib\a.py"))
+    <> spec all_valid (tbl_matches w9_mt) w9_cfg (absf "lib\a.py")
+  /\ forget (run all_valid (tbl_matches w9_mt) (with_flag 5 placement_actual) w9_cfg (absf "src\x.py"))
+    = spec all_valid (tbl_matches w9_mt) w9_cfg (absf "src\x.py")
+  /\ forget (run all_valid (tbl_matches w9_mt) (with_flag 5 placement_actual) w9_cfg (absf "lib\a.py"))
+    = spec all_valid (tbl_matches w9_mt) w9_cfg (absf "lib\a.py").
+Proof. repeat split; vm_compute; try discriminate; reflexivity. Qed.
